@@ -4,27 +4,22 @@ import HapVerif.Generated.Facts
 # C12 — a change is never lost to a transient failure: the next reconcile applies it
 
 Model: `HapVerif.C12.FW` = the C05 stores (backends + shard files, hosts + frontend maps) plus one
-tcp service, the backend map files, what haproxy.cfg says about the host maps, and what the
-running HAProxy holds; `upd o sh f` = one whole `instance.HAProxyUpdate` with fault `f` injected
-(`Fault`: tcp maps, frontend maps, backend maps, crt-lists, Sends of the dynamic update,
-haproxy.cfg, shard file k, reload request, reload result); `qrun` = one run of the reload queue
-worker (`Services.reloadHAProxy`).  The two retry paths: `IngressReconciler.Reconcile` requeues the
-same item after an error (`upd .none` on whatever batch accumulated, possibly none), the worker puts
-its item back after a failed `Reload` (`qrun`).
+tcp service, the backend map files, what haproxy.cfg says about the host maps, what the running
+HAProxy holds, and the two flags of `instance` (`rewriteOwed`, `reloadOwed`); `upd o sh f` = one
+whole `instance.HAProxyUpdate` with fault `f` injected (`Fault`: tcp maps, frontend maps, backend
+maps, crt-lists, Sends of the dynamic update, haproxy.cfg, shard file k, reload request, reload
+result); `qrun` = one run of the reload queue worker (`Services.reloadHAProxy`).  The two retry
+paths: `IngressReconciler.Reconcile` requeues the same item after an error (`upd .none` on whatever
+batch accumulated, possibly none), the worker puts its item back after a failed `Reload` (`qrun`).
 
 Spec: `DiskGood` (every file = rendering of the in-memory model) ∧ `RunGood` (HAProxy = the files).
 
-Full-strength statement (does NOT hold for the code as it is):
-
-    theorem retry_converges (hist : List (Ev p)) (hok : allOk o sh {} hist) :   -- faults anywhere in hist
-        let r := upd o sh .none (run o sh {} hist)                               -- fault-free, empty batch
-        (o.queue = false → DiskGood o sh r.w ∧ RunGood sh r.w) ∧
-        (o.queue = true → DiskGood o sh (qrun sh .none r.w).w ∧ RunGood sh (qrun sh .none r.w).w)
-
-What is proved: `retry_converges_partial` / `retry_converges_queue_partial` for the fault points
-`Fault.good` (a failed runtime command: the update falls back to a reload; in queue mode also the
-reload request and its result, inside the worker).  For every other fault point a `decide`d
-counter-example below, replayed on the real code by the harness (same op sequences, mode `inst`).
+`retry_converges` / `retry_converges_queue` hold at FULL strength for the code as it is
+(`Opt.repaired = true`, the two `fix:` commits 5b084c3 and 17543b6): whatever fault hit whatever
+update, any number of times, the next fault-free reconcile with an empty batch (plus, with a reload
+queue, one fault-free run of the worker) ends with files = model and HAProxy = files.  The code
+before the repair (`Opt.repaired = false`: the flags are never looked at) is kept for the
+historical witnesses, one per fault point and finding signature.
 -/
 namespace HapVerif.C12
 open HapVerif.C05
@@ -40,75 +35,82 @@ theorem allOk_append (o : Opt) (sh : Sh p) (a b : List (Ev p)) : ∀ (w : FW p),
   | nil => intro w; simp [allOk, run]
   | cons e a ih => intro w; simp [allOk, run, ih, Bool.and_assoc]
 
-/-- the invariant holds along every disciplined history whose faults are good ones -/
-theorem run_inv {o : Opt} {sh : Sh p} (wf : sh.WF) (evs : List (Ev p)) : ∀ {w : FW p}, FInv o sh w →
-    allOk o sh w evs = true → (∀ e ∈ evs, goodEv o e = true) → FInv o sh (run o sh w evs) := by
+/-- the invariant holds along every disciplined history, whatever fails in it -/
+theorem run_jinv {o : Opt} {sh : Sh p} (wf : sh.WF) (hrep : o.repaired = true) (evs : List (Ev p)) :
+    ∀ {w : FW p}, JInv o sh w → allOk o sh w evs = true → JInv o sh (run o sh w evs) := by
   induction evs with
-  | nil => intro w h _ _; exact h
+  | nil => intro w h _; exact h
   | cons e evs ih =>
-    intro w h hok hg
+    intro w h hok
     simp only [allOk, Bool.and_eq_true] at hok
-    have hge := hg e List.mem_cons_self
-    have hstep : FInv o sh (step o sh w e) := by
+    have hstep : JInv o sh (step o sh w e) := by
       cases e with
-      | upd f => exact (upd_good wf h (by simpa [goodEv] using hge)).2.1
-      | qrun f => exact qrun_inv h f
-      | acq x c => exact step_inv_batch wf h _ hok.1 (fun _ h => by cases h) (fun _ h => by cases h)
-      | rem xs => exact step_inv_batch wf h _ hok.1 (fun _ h => by cases h) (fun _ h => by cases h)
-      | hacq x c => exact step_inv_batch wf h _ hok.1 (fun _ h => by cases h) (fun _ h => by cases h)
-      | hrem xs => exact step_inv_batch wf h _ hok.1 (fun _ h => by cases h) (fun _ h => by cases h)
-      | tcp v => exact step_inv_batch wf h _ hok.1 (fun _ h => by cases h) (fun _ h => by cases h)
-      | full => exact step_inv_batch wf h _ hok.1 (fun _ h => by cases h) (fun _ h => by cases h)
-    exact ih hstep hok.2 (fun e' he' => hg e' (List.mem_cons_of_mem _ he'))
+      | upd f => exact upd_jinv wf hrep h f
+      | qrun f => exact qrun_jinv h f
+      | acq x c => exact jinv_step_batch wf h _ hok.1 (fun _ h => by cases h) (fun _ h => by cases h)
+      | rem xs => exact jinv_step_batch wf h _ hok.1 (fun _ h => by cases h) (fun _ h => by cases h)
+      | hacq x c => exact jinv_step_batch wf h _ hok.1 (fun _ h => by cases h) (fun _ h => by cases h)
+      | hrem xs => exact jinv_step_batch wf h _ hok.1 (fun _ h => by cases h) (fun _ h => by cases h)
+      | tcp v => exact jinv_step_batch wf h _ hok.1 (fun _ h => by cases h) (fun _ h => by cases h)
+      | full => exact jinv_step_batch wf h _ hok.1 (fun _ h => by cases h) (fun _ h => by cases h)
+    exact ih hstep hok.2
 
-/-- **C12, direct reload (`--reload-interval=0`), good fault points.**  For every shard count, shard
-function and name universe, every disciplined history of batches and updates in which the only
-faults are failed runtime commands (any Sends, any number of times, in any updates): the next
-reconcile with an empty batch returns no error, every file holds the rendering of the in-memory
-model and HAProxy holds the files. -/
-theorem retry_converges_partial (o : Opt) (sh : Sh p) (wf : sh.WF) (hq : o.queue = false) (hist : List (Ev p))
-    (hok : allOk o sh {} hist = true) (hgood : ∀ e ∈ hist, goodEv o e = true) :
+/-- one fault-free update from the invariant: past writeConfig, no error -/
+theorem upd_none_outcome {o : Opt} {sh : Sh p} (wf : sh.WF) (hrep : o.repaired = true) {w : FW p} (hj : JInv o sh w) :
+    (upd o sh .none w).err = false ∧ (upd o sh .none w).w.rewriteOwed = false ∧
+    FInv o sh (upd o sh .none w).w ∧ DiskGood o sh (upd o sh .none w).w ∧
+    (o.queue = false → RunGood sh (upd o sh .none w).w ∧ (upd o sh .none w).w.reloadOwed = false) ∧
+    ((upd o sh .none w).w.pending = true ∨ (upd o sh .none w).w.reloadOwed = false) := by
+  rcases upd_outcome wf hrep hj .none with ⟨hw, _⟩ | ⟨hro, hf, hd, _, he, hp⟩
+  · cases hw
+  · exact ⟨(he rfl).1, hro, hf, hd, (he rfl).2 hrep, hp hrep (Or.inl rfl)⟩
+
+/-- **C12, direct reload (`--reload-interval=0`).**  For every shard count, shard function and name
+universe, every disciplined history of batches, updates and queue runs with ANY fault in ANY of them
+(a file that cannot be written — tcp map, frontend map, backend map, crt-list, haproxy.cfg, shard
+file k —, failed runtime commands, a failed reload request, a failed reload), any number of times:
+the next reconcile with an empty batch and no fault returns no error, every file holds the
+rendering of the in-memory model, HAProxy holds the files, nothing stays owed. -/
+theorem retry_converges (o : Opt) (sh : Sh p) (wf : sh.WF) (hrep : o.repaired = true) (hq : o.queue = false)
+    (hist : List (Ev p)) (hok : allOk o sh {} hist = true) :
     (upd o sh .none (run o sh {} hist)).err = false ∧
-    DiskGood o sh (upd o sh .none (run o sh {} hist)).w ∧ RunGood sh (upd o sh .none (run o sh {} hist)).w := by
-  have hi := run_inv wf hist (finv_init o sh) hok hgood
-  obtain ⟨he, hf, hd⟩ := upd_good wf hi (f := .none) rfl
-  refine ⟨he, hd, ?_⟩
-  rcases hf.r with h | h
-  · rw [hf.q hq] at h; cases h
-  · exact h
+    DiskGood o sh (upd o sh .none (run o sh {} hist)).w ∧ RunGood sh (upd o sh .none (run o sh {} hist)).w ∧
+    (upd o sh .none (run o sh {} hist)).w.rewriteOwed = false ∧
+    (upd o sh .none (run o sh {} hist)).w.reloadOwed = false := by
+  have hj := run_jinv wf hrep hist (jinv_init o sh) hok
+  obtain ⟨he, hro, _, hd, hr, _⟩ := upd_none_outcome wf hrep hj
+  exact ⟨he, hd, (hr hq).1, hro, (hr hq).2⟩
 
-/-- the faulty update itself already ends converged: a failed runtime command makes the same
-update reload -/
-theorem admin_fault_converges_at_once (o : Opt) (sh : Sh p) (wf : sh.WF) (hq : o.queue = false) (hist : List (Ev p))
-    (hok : allOk o sh {} hist = true) (hgood : ∀ e ∈ hist, goodEv o e = true) (bad : List Nat) :
+/-- **C12, reload queue (`--reload-interval>0`).**  The same: after any history with any faults, the
+next reconcile with an empty batch followed by one fault-free run of the queue worker ends with
+files = model, HAProxy = files, an empty queue and nothing owed. -/
+theorem retry_converges_queue (o : Opt) (sh : Sh p) (wf : sh.WF) (hrep : o.repaired = true)
+    (hist : List (Ev p)) (hok : allOk o sh {} hist = true) :
+    let u := upd o sh .none (run o sh {} hist)
+    let r := qrun sh .none u.w
+    u.err = false ∧ r.err = false ∧ DiskGood o sh r.w ∧ RunGood sh r.w ∧ r.w.pending = false ∧
+    r.w.reloadOwed = false := by
+  have hj := run_jinv wf hrep hist (jinv_init o sh) hok
+  obtain ⟨he, _, hf, hd, _, hp⟩ := upd_none_outcome wf hrep hj
+  obtain ⟨hqe, hqp, hqo, hqr⟩ := qrun_settles hf hp (f := .none) rfl
+  exact ⟨he, hqe, qrun_diskGood hd _, hqr, hqp, hqo⟩
+
+/-- a failed runtime command is repaired by the same update: it falls back to a reload -/
+theorem admin_fault_converges_at_once (o : Opt) (sh : Sh p) (wf : sh.WF) (hrep : o.repaired = true)
+    (hq : o.queue = false) (hist : List (Ev p)) (hok : allOk o sh {} hist = true) (bad : List Nat) :
     (upd o sh (.admin bad) (run o sh {} hist)).err = false ∧
     DiskGood o sh (upd o sh (.admin bad) (run o sh {} hist)).w ∧
     RunGood sh (upd o sh (.admin bad) (run o sh {} hist)).w := by
-  have hi := run_inv wf hist (finv_init o sh) hok hgood
-  obtain ⟨he, hf, hd⟩ := upd_good wf hi (f := .admin bad) rfl
-  refine ⟨he, hd, ?_⟩
-  rcases hf.r with h | h
-  · rw [hf.q hq] at h; cases h
-  · exact h
+  have hj := run_jinv wf hrep hist (jinv_init o sh) hok
+  rcases upd_outcome wf hrep hj (.admin bad) with ⟨hw, _⟩ | ⟨_, _, hd, _, he, _⟩
+  · cases hw
+  · exact ⟨(he rfl).1, hd, ((he rfl).2 hrep hq).1⟩
 
-/-- **C12, reload queue (`--reload-interval>0`), good fault points.**  The same for histories in
-which, besides failed runtime commands, the reload request or its result fails inside the queue
-worker any number of times: after the next reconcile with an empty batch and one fault-free run of
-the worker, files = model, HAProxy = files, nothing is left in the queue. -/
-theorem retry_converges_queue_partial (o : Opt) (sh : Sh p) (wf : sh.WF) (hist : List (Ev p))
-    (hok : allOk o sh {} hist = true) (hgood : ∀ e ∈ hist, goodEv o e = true) :
-    let u := upd o sh .none (run o sh {} hist)
-    let r := qrun sh .none u.w
-    u.err = false ∧ r.err = false ∧ DiskGood o sh r.w ∧ RunGood sh r.w ∧ r.w.pending = false := by
-  have hi := run_inv wf hist (finv_init o sh) hok hgood
-  obtain ⟨he, hf, hd⟩ := upd_good wf hi (f := .none) rfl
-  obtain ⟨hqe, hqp, hqr⟩ := qrun_settles hf (f := .none) rfl
-  exact ⟨he, hqe, qrun_diskGood hd _, hqr, hqp⟩
+/-! ### non-vacuity, and the historical witnesses: one per fault point and finding signature
 
-/-! ### non-vacuity and the counter-examples, one per fault point outside `Fault.good`
-
-Each history below is also a corpus case of the harness (`c12instCorpus`), run on the real
-`haproxy.Instance`. -/
+`oldD / oldQ / oldA` = the code before the repair (`fixed:` entries of known-findings.txt); every
+history below is also a corpus case of the harness (`c12instCorpus`, `c12worldCorpus`), run on the
+real code.  Each witness states what the old code did AND what the current code does. -/
 
 def s0 : Sh 2 := { n := 0, shardOf := fun _ => 0 }
 def s3 : Sh 2 := { n := 3, shardOf := fun x => if x.val = 0 then 2 else 0 }
@@ -118,115 +120,150 @@ theorem s3_wf : s3.WF := by intro x; simp only [s3]; by_cases h : x.val = 0 <;> 
 def oD : Opt := {}
 def oQ : Opt := { queue := true }
 def oA : Opt := { needACL := fun _ => true }
+def oldD : Opt := { repaired := false }
+def oldQ : Opt := { queue := true, repaired := false }
+def oldA : Opt := { needACL := fun _ => true, repaired := false }
 
 def c4 : Content := ⟨4, 0⟩
 def c5 : Content := ⟨5, 0⟩     -- same conf as c4, other address
 def c8 : Content := ⟨8, 0⟩     -- other conf
 
-/-- non-vacuity of `retry_converges_partial`: a runtime command fails twice in a row (the update
-reloads instead), then the change is applied dynamically, then the empty retry -/
+/-- non-vacuity of `retry_converges`: every kind of fault in one history (runtime command, frontend
+maps twice, haproxy.cfg, reload result), the files are stale and a reload is owed right before the
+retry, and right after it nothing is -/
 example :
     let hist : List (Ev 2) := [.acq 0 c4, .hacq 0 1, .tcp 1, .upd .none,
-      .rem [0], .acq 0 c5, .upd (.admin [0]), .rem [0], .acq 0 c4, .upd (.admin [0]), .rem [0], .acq 0 c5, .upd .none]
-    allOk oD s0 {} hist = true ∧ (∀ e ∈ hist, goodEv oD e = true) ∧
-    (run oD s0 {} hist).run.back 0 = some c5 ∧ (run oD s0 {} hist).g.w.disk 0 0 = some c5 ∧
-    (upd oD s0 (.admin [0]) (run oD s0 {} (hist.take 6))).sends = 1 := by decide
+      .rem [0], .acq 0 c5, .upd (.admin [0]), .hrem [0], .hacq 0 2, .upd .frontMaps, .upd .frontMaps,
+      .rem [0], .acq 0 c8, .upd .mainCfg, .tcp 2, .upd .reloadResult, .rem [0], .acq 0 c4, .upd .tcpMaps]
+    let w := run oD s0 {} hist
+    let r := upd oD s0 .none w
+    allOk oD s0 {} hist = true ∧ w.rewriteOwed = true ∧ w.reloadOwed = true ∧ w.tcp.map = 1 ∧
+    w.g.w.disk 0 0 = some c8 ∧ w.run.back 0 = some c5 ∧ w.run.maps 0 = some (1, false) ∧
+    r.err = false ∧ r.w.g.w.disk 0 0 = some c4 ∧ r.w.run.back 0 = some c4 ∧ r.w.h.maps 0 = some (2, false) ∧
+    r.w.run.maps 0 = some (2, false) ∧ r.w.tcp.map = 2 ∧ r.w.run.tcpMain = 2 ∧
+    r.w.rewriteOwed = false ∧ r.w.reloadOwed = false := by decide
 
-/-- non-vacuity of `retry_converges_queue_partial`: the worker fails twice -/
+/-- non-vacuity of `retry_converges_queue`: the worker fails twice, a write fails in between -/
 example :
-    let hist : List (Ev 2) := [.acq 0 c4, .upd .none, .qrun .reloadSend, .qrun .reloadResult]
-    allOk oQ s0 {} hist = true ∧ (∀ e ∈ hist, goodEv oQ e = true) ∧
-    (run oQ s0 {} hist).pending = true ∧ (run oQ s0 {} hist).run.back 0 = none ∧
-    (qrun s0 .none (upd oQ s0 .none (run oQ s0 {} hist)).w).w.run.back 0 = some c4 := by decide
+    let hist : List (Ev 2) := [.acq 0 c4, .upd .none, .qrun .reloadSend, .rem [0], .acq 0 c8, .upd .mainCfg,
+      .qrun .reloadResult]
+    let w := run oQ s0 {} hist
+    let r := qrun s0 .none (upd oQ s0 .none w).w
+    allOk oQ s0 {} hist = true ∧ w.pending = true ∧ w.rewriteOwed = true ∧ w.run.back 0 = none ∧
+    w.g.w.disk 0 0 = some c4 ∧ r.err = false ∧ r.w.g.w.disk 0 0 = some c8 ∧ r.w.run.back 0 = some c8 ∧
+    r.w.pending = false := by decide
 
 /-- fault point 1, `change-lost-after-failed-map-write` / `half-written-files-after-fault`: the tcp
-sni map cannot be written; the retry rewrites the crt-list only (it has no guard), the map and the
-`listen` section keep the old service, nothing is reloaded -/
+sni map cannot be written; the old retry rewrote the crt-list only (it has no guard), the map and
+the `listen` section kept the old service, nothing was reloaded -/
 theorem lost_after_failed_tcp_map_write :
     let hist : List (Ev 2) := [.tcp 1, .upd .none, .tcp 2, .upd .tcpMaps]
-    let r := upd oD s0 .none (run oD s0 {} hist)
-    allOk oD s0 {} hist = true ∧ (upd oD s0 .tcpMaps (run oD s0 {} (hist.take 3))).err = true ∧ r.err = false ∧
-    r.w.tcp.want = 2 ∧ r.w.tcp.map = 1 ∧ r.w.tcp.crt = 2 ∧ r.w.tcp.main = 1 ∧ r.w.run.tcpMap = 1 := by decide
+    let old := upd oldD s0 .none (run oldD s0 {} hist)
+    let cur := upd oD s0 .none (run oD s0 {} hist)
+    allOk oD s0 {} hist = true ∧ (upd oldD s0 .tcpMaps (run oldD s0 {} (hist.take 3))).err = true ∧ old.err = false ∧
+    old.w.tcp.want = 2 ∧ old.w.tcp.map = 1 ∧ old.w.tcp.crt = 2 ∧ old.w.tcp.main = 1 ∧ old.w.run.tcpMap = 1 ∧
+    cur.err = false ∧ cur.w.tcp.map = 2 ∧ cur.w.tcp.crt = 2 ∧ cur.w.tcp.main = 2 ∧ cur.w.run.tcpMap = 2 := by decide
 
 /-- fault point 2, `change-lost-after-failed-map-write`: the frontend maps cannot be written; the
-deferred `Commit()` empties the hosts' changed-sets, the retry skips `WriteFrontendMaps`; only a later
-change of the hosts brings the maps back -/
+deferred `Commit()` empties the hosts' changed-sets, the old retry skipped `WriteFrontendMaps`; only a
+later change of the hosts brought the maps back -/
 theorem lost_after_failed_frontend_map_write :
     let hist : List (Ev 2) := [.hacq 0 1, .upd .none, .hrem [0], .hacq 0 2, .upd .frontMaps]
-    let r := upd oD s0 .none (run oD s0 {} hist)
-    allOk oD s0 {} hist = true ∧ r.err = false ∧
-    r.w.h.items 0 = some 2 ∧ r.w.h.maps 0 = some (1, false) ∧ r.w.run.maps 0 = some (1, false) ∧
-    (run oD s0 {} (hist ++ [.upd .none, .hrem [0], .hacq 0 3, .upd .none])).h.maps 0 = some (3, false) := by decide
+    let old := upd oldD s0 .none (run oldD s0 {} hist)
+    let cur := upd oD s0 .none (run oD s0 {} hist)
+    allOk oD s0 {} hist = true ∧ old.err = false ∧
+    old.w.h.items 0 = some 2 ∧ old.w.h.maps 0 = some (1, false) ∧ old.w.run.maps 0 = some (1, false) ∧
+    (run oldD s0 {} (hist ++ [.upd .none, .hrem [0], .hacq 0 3, .upd .none])).h.maps 0 = some (3, false) ∧
+    cur.err = false ∧ cur.w.h.maps 0 = some (2, false) ∧ cur.w.run.maps 0 = some (2, false) := by decide
 
-/-- the first update fails at the frontend maps: the retry writes the maps (`frontend.Maps == nil`) but
-haproxy.cfg is never written and nothing is ever loaded -/
+/-- the first update fails at the frontend maps: the old retry wrote the maps (`frontend.Maps == nil`)
+but haproxy.cfg was never written and nothing was ever loaded -/
 theorem first_update_failure_leaves_no_cfg :
     let hist : List (Ev 2) := [.acq 0 c4, .hacq 0 1, .upd .frontMaps]
-    let r := upd oD s0 .none (run oD s0 {} hist)
-    allOk oD s0 {} hist = true ∧ r.err = false ∧ r.w.h.maps 0 = some (1, false) ∧
-    r.w.g.w.store.items 0 = some c4 ∧ r.w.g.w.disk 0 0 = none ∧ r.w.mainHosts = false ∧ r.w.run.back 0 = none := by decide
+    let old := upd oldD s0 .none (run oldD s0 {} hist)
+    let cur := upd oD s0 .none (run oD s0 {} hist)
+    allOk oD s0 {} hist = true ∧ old.err = false ∧ old.w.h.maps 0 = some (1, false) ∧
+    old.w.g.w.store.items 0 = some c4 ∧ old.w.g.w.disk 0 0 = none ∧ old.w.mainHosts = false ∧ old.w.run.back 0 = none ∧
+    cur.err = false ∧ cur.w.g.w.disk 0 0 = some c4 ∧ cur.w.mainHosts = true ∧ cur.w.run.back 0 = some c4 := by decide
 
 /-- fault point 3, `change-lost-after-failed-map-write`: a backend map cannot be written -/
 theorem lost_after_failed_backend_map_write :
     let hist : List (Ev 2) := [.acq 0 c4, .upd .none, .rem [0], .acq 0 c8, .upd .backMaps]
-    let r := upd oA s0 .none (run oA s0 {} hist)
-    allOk oA s0 {} hist = true ∧ (upd oA s0 .backMaps (run oA s0 {} (hist.take 4))).err = true ∧ r.err = false ∧
-    r.w.g.w.store.items 0 = some c8 ∧ r.w.bm 0 = some 1 ∧ r.w.g.w.disk 0 0 = some c4 := by decide
+    let old := upd oldA s0 .none (run oldA s0 {} hist)
+    let cur := upd oA s0 .none (run oA s0 {} hist)
+    allOk oA s0 {} hist = true ∧ (upd oldA s0 .backMaps (run oldA s0 {} (hist.take 4))).err = true ∧ old.err = false ∧
+    old.w.g.w.store.items 0 = some c8 ∧ old.w.bm 0 = some 1 ∧ old.w.g.w.disk 0 0 = some c4 ∧
+    cur.err = false ∧ cur.w.bm 0 = some 2 ∧ cur.w.g.w.disk 0 0 = some c8 ∧ cur.w.run.bm 0 = some 2 := by decide
 
 /-- `update-keeps-failing-after-failed-map-write`: a backend that needs ACLs is added in a batch whose
-update fails BEFORE WriteBackendMaps (here: at the tcp maps); its `PathsMap` stays nil, and from then
-on every update that renders it fails inside the template — also the ones for unrelated changes -/
+update fails BEFORE WriteBackendMaps (here: at the tcp maps); its `PathsMap` stayed nil, and from then
+on every update that rendered it failed inside the template — also the ones for unrelated changes.
+Now the rewrite visits `Items()`, which sets it. -/
 theorem update_keeps_failing_after_failed_map_write :
     let hist : List (Ev 2) := [.tcp 1, .upd .none, .acq 0 c4, .tcp 2, .upd .tcpMaps, .upd .none]
     allOk oA s0 {} hist = true ∧
-    (upd oA s0 .none (run oA s0 {} (hist.take 5))).err = false ∧        -- the retry: "configurations match"
-    (upd oA s0 .none (run oA s0 {} (hist ++ [.acq 1 c4]))).err = true ∧    -- an unrelated backend is added
-    (upd oA s0 .none (run oA s0 {} (hist ++ [.acq 1 c4, .upd .none]))).err = false ∧
-    (upd oA s0 .none (run oA s0 {} (hist ++ [.acq 1 c4, .upd .none, .tcp 3]))).err = true := by decide
+    (upd oldA s0 .none (run oldA s0 {} (hist.take 5))).err = false ∧        -- the retry: "configurations match"
+    (upd oldA s0 .none (run oldA s0 {} (hist ++ [.acq 1 c4]))).err = true ∧    -- an unrelated backend is added
+    (upd oldA s0 .none (run oldA s0 {} (hist ++ [.acq 1 c4, .upd .none]))).err = false ∧
+    (upd oldA s0 .none (run oldA s0 {} (hist ++ [.acq 1 c4, .upd .none, .tcp 3]))).err = true ∧
+    (upd oA s0 .none (run oA s0 {} (hist ++ [.acq 1 c4]))).err = false ∧
+    (upd oA s0 .none (run oA s0 {} (hist ++ [.acq 1 c4, .upd .none, .tcp 3]))).err = false := by decide
 
-/-- fault point 4, `half-written-files-after-fault`: the tcp crt-list cannot be written; the retry
-writes it (no guard) but haproxy.cfg keeps the old service and nothing is reloaded -/
+/-- fault point 4, `half-written-files-after-fault`: the tcp crt-list cannot be written; the old retry
+wrote it (no guard) but haproxy.cfg kept the old service and nothing was reloaded -/
 theorem lost_after_failed_crtlist_write :
     let hist : List (Ev 2) := [.tcp 1, .upd .none, .tcp 2, .upd .crtLists]
-    let r := upd oD s0 .none (run oD s0 {} hist)
-    allOk oD s0 {} hist = true ∧ r.err = false ∧
-    r.w.tcp.map = 2 ∧ r.w.tcp.crt = 2 ∧ r.w.tcp.main = 1 ∧ r.w.run.tcpMap = 1 ∧ r.w.run.tcpCrt = 1 := by decide
+    let old := upd oldD s0 .none (run oldD s0 {} hist)
+    let cur := upd oD s0 .none (run oD s0 {} hist)
+    allOk oD s0 {} hist = true ∧ old.err = false ∧
+    old.w.tcp.map = 2 ∧ old.w.tcp.crt = 2 ∧ old.w.tcp.main = 1 ∧ old.w.run.tcpMap = 1 ∧ old.w.run.tcpCrt = 1 ∧
+    cur.err = false ∧ cur.w.tcp.main = 2 ∧ cur.w.run.tcpMap = 2 ∧ cur.w.run.tcpCrt = 2 := by decide
 
 /-- fault point 6a, `change-lost-after-failed-cfg-write`: haproxy.cfg cannot be written -/
 theorem lost_after_failed_cfg_write :
     let hist : List (Ev 2) := [.acq 0 c4, .upd .none, .rem [0], .acq 0 c8, .upd .mainCfg]
-    let r := upd oD s0 .none (run oD s0 {} hist)
-    allOk oD s0 {} hist = true ∧ r.err = false ∧
-    r.w.g.w.store.items 0 = some c8 ∧ r.w.g.w.disk 0 0 = some c4 ∧ r.w.run.back 0 = some c4 := by decide
+    let old := upd oldD s0 .none (run oldD s0 {} hist)
+    let cur := upd oD s0 .none (run oD s0 {} hist)
+    allOk oD s0 {} hist = true ∧ old.err = false ∧
+    old.w.g.w.store.items 0 = some c8 ∧ old.w.g.w.disk 0 0 = some c4 ∧ old.w.run.back 0 = some c4 ∧
+    cur.err = false ∧ cur.w.g.w.disk 0 0 = some c8 ∧ cur.w.run.back 0 = some c8 := by decide
 
 /-- fault point 6b, `change-lost-after-failed-cfg-write`: the second changed shard file cannot be
-written: the first one holds the new backend, the second one the old; not even a full resync
-(`config.Clear()`, everything parsed again) rewrites it, because `Shrink` finds nothing changed -/
+written: the first one held the new backend, the second one the old; not even a full resync
+(`config.Clear()`, everything parsed again) rewrote it, because `Shrink` finds nothing changed -/
 theorem lost_after_failed_shard_write :
     let hist : List (Ev 2) := [.acq 0 c4, .acq 1 c4, .upd .none, .rem [0], .acq 0 c8, .rem [1], .acq 1 c8, .upd (.shard 2)]
-    let r := upd oD s3 .none (run oD s3 {} hist)
-    let r2 := upd oD s3 .none (run oD s3 {} (hist ++ [.upd .none, .full, .acq 0 c8, .acq 1 c8]))
-    allOk oD s3 {} (hist ++ [.upd .none, .full, .acq 0 c8, .acq 1 c8]) = true ∧ r.err = false ∧
-    r.w.g.w.disk 0 1 = some c8 ∧ r.w.g.w.disk 2 0 = some c4 ∧ r.w.g.w.store.items 0 = some c8 ∧
-    r2.err = false ∧ r2.w.g.w.disk 2 0 = some c4 ∧ r2.w.run.back 0 = some c4 := by decide
+    let old := upd oldD s3 .none (run oldD s3 {} hist)
+    let old2 := upd oldD s3 .none (run oldD s3 {} (hist ++ [.upd .none, .full, .acq 0 c8, .acq 1 c8]))
+    let cur := upd oD s3 .none (run oD s3 {} hist)
+    allOk oD s3 {} (hist ++ [.upd .none, .full, .acq 0 c8, .acq 1 c8]) = true ∧ old.err = false ∧
+    old.w.g.w.disk 0 1 = some c8 ∧ old.w.g.w.disk 2 0 = some c4 ∧ old.w.g.w.store.items 0 = some c8 ∧
+    old2.err = false ∧ old2.w.g.w.disk 2 0 = some c4 ∧ old2.w.run.back 0 = some c4 ∧
+    cur.err = false ∧ cur.w.g.w.disk 2 0 = some c8 ∧ cur.w.run.back 0 = some c8 := by decide
 
 /-- fault points 8a / 8b, `reload-not-retried-after-failed-reload`: without a reload queue the failed
-reload is returned as an error and the reconcile is retried, but the retry finds "old and new
-configurations match" and does not reload: the files are right, HAProxy never reads them -/
+reload is returned as an error and the reconcile is retried, but the old retry found "old and new
+configurations match" and did not reload: the files were right, HAProxy never read them -/
 theorem reload_not_retried_after_failed_reload :
     let hist : List (Ev 2) := [.acq 0 c4, .upd .none, .rem [0], .acq 0 c8]
-    let r1 := upd oD s0 .none (upd oD s0 .reloadSend (run oD s0 {} hist)).w
-    let r2 := upd oD s0 .none (upd oD s0 .reloadResult (run oD s0 {} hist)).w
-    allOk oD s0 {} hist = true ∧ (upd oD s0 .reloadSend (run oD s0 {} hist)).err = true ∧
-    r1.err = false ∧ r1.w.g.w.disk 0 0 = some c8 ∧ r1.w.run.back 0 = some c4 ∧
-    r2.err = false ∧ r2.w.g.w.disk 0 0 = some c8 ∧ r2.w.run.back 0 = some c4 := by decide
+    let old1 := upd oldD s0 .none (upd oldD s0 .reloadSend (run oldD s0 {} hist)).w
+    let old2 := upd oldD s0 .none (upd oldD s0 .reloadResult (run oldD s0 {} hist)).w
+    let cur1 := upd oD s0 .none (upd oD s0 .reloadSend (run oD s0 {} hist)).w
+    let cur2 := upd oD s0 .none (upd oD s0 .reloadResult (run oD s0 {} hist)).w
+    allOk oD s0 {} hist = true ∧ (upd oldD s0 .reloadSend (run oldD s0 {} hist)).err = true ∧
+    old1.err = false ∧ old1.w.g.w.disk 0 0 = some c8 ∧ old1.w.run.back 0 = some c4 ∧
+    old2.err = false ∧ old2.w.g.w.disk 0 0 = some c8 ∧ old2.w.run.back 0 = some c4 ∧
+    cur1.err = false ∧ cur1.w.run.back 0 = some c8 ∧ cur2.err = false ∧ cur2.w.run.back 0 = some c8 := by decide
 
-/-- a write fault in queue mode is lost the same way (the queue only retries the reload) -/
+/-- `reload-skipped-after-failed-write` and the reload queue: a write fault in queue mode was lost the
+same way (the queue only retried the reload) -/
 theorem queue_does_not_help_a_failed_write :
     let hist : List (Ev 2) := [.acq 0 c4, .upd .none, .qrun .none, .rem [0], .acq 0 c8, .upd .mainCfg]
-    let r := qrun s0 .none (upd oQ s0 .none (run oQ s0 {} hist)).w
-    allOk oQ s0 {} hist = true ∧ r.err = false ∧ r.w.pending = false ∧
-    r.w.g.w.store.items 0 = some c8 ∧ r.w.g.w.disk 0 0 = some c4 := by decide
+    let old := qrun s0 .none (upd oldQ s0 .none (run oldQ s0 {} hist)).w
+    let cur := qrun s0 .none (upd oQ s0 .none (run oQ s0 {} hist)).w
+    allOk oQ s0 {} hist = true ∧ old.err = false ∧ old.w.pending = false ∧
+    old.w.g.w.store.items 0 = some c8 ∧ old.w.g.w.disk 0 0 = some c4 ∧
+    cur.err = false ∧ cur.w.pending = false ∧ cur.w.g.w.disk 0 0 = some c8 ∧ cur.w.run.back 0 = some c8 := by decide
 
 /-! ### regenerated facts: the Go source still has the shape the model assumes -/
 
